@@ -15,7 +15,7 @@ X = ("fd00::1", 5683)
 P = ("fd00::2", 5683)
 MODES = ["plain-cb", "bw-cb", "plain-aiter", "bw-aiter"]
 VALUES = [0, 1, 2, 3, 5, 2**23 - 1, 2**23, 2**23 + 1, 2**24 - 2, 2**24 - 1]
-GAPS = [0.001, 0.001, 0.5, 1.0, 127.0, 129.0, 300.0]
+GAPS = [0.0, 0.0, 0.001, 0.001, 0.5, 1.0, 127.0, 129.0, 300.0]
 
 
 def fresh(v1, t1, v2, t2):
@@ -38,6 +38,15 @@ def run_case(case, want_trace=False):
         def handler(peer, t, src, f, raw):
             if f is None or f["code"] == 0 or (f["code"] >> 5) != 0:
                 return
+            nblocks = case["first"].get("blocks", 0)
+            b2 = R.opt(f, R.O_BLOCK2)
+            if nblocks and b2 is not None and b2[0] > 0:
+                # the client fetches the rest of a block-wise first response (16-byte blocks); meanwhile
+                # notifications and terminators keep arriving on the observation's token
+                n = b2[0]
+                if n < nblocks:
+                    peer.send(src, R.msg(R.ACK, R.CONTENT, f["mid"], f["token"], [(R.O_BLOCK2, (n, n < nblocks - 1, 0))], (b"first%02d........." % n)[:16]), case["first"].get("block_delay", 0.0))
+                return
             if state["sent_first"]:
                 return  # retransmission of the request: the (possibly delayed) first response is under way
             state["sent_first"] = True
@@ -45,7 +54,10 @@ def run_case(case, want_trace=False):
             first = case["first"]
             opts = [] if first["observe"] is None else [(R.O_OBSERVE, first["observe"])]
             code = first.get("code", R.CONTENT)
-            peer.send(src, R.msg(R.ACK, code, f["mid"], f["token"], opts, b"first"))
+            if nblocks:
+                peer.send(src, R.msg(R.ACK, code, f["mid"], f["token"], opts + [(R.O_BLOCK2, (0, True, 0))], b"first00........."))
+            else:
+                peer.send(src, R.msg(R.ACK, code, f["mid"], f["token"], opts, b"first"))
             tcur = 0.0
             for i, n in enumerate(case["notifications"]):
                 tcur += n["gap"]
@@ -175,10 +187,16 @@ def run_case(case, want_trace=False):
 
         if terminal and terminal[0] in ("network-before-first", "first-unsuccessful-with-observe"):
             return Outcome([], ["excluded:" + terminal[0]], False)
+        if case["first"].get("blocks") and mode.startswith("bw") and kind0 == "exception" and icmp_times:
+            # an ICMP error while the block-wise first response was still being fetched fails that fetch: the
+            # application never got a first response, there is no observation to speak of
+            return Outcome([], ["excluded:first-response-assembly-failed"], False)
         # ---------------- compare ------------------------------------------------------
         cbs = [(pl, code) for (t, k, pl, code) in delivered if k == "cb"]
         ends = [(t, k, e) for (t, k, e, _) in delivered if k in ("err", "end")]
         labels.add("mode-" + mode)
+        if case["first"].get("blocks"):
+            labels.add("blockwise-first-response")
         labels.add("terminal-" + (terminal[0] if terminal else "none"))
         if kind0 != "result" and terminal and terminal[0] != "network":
             vio.append(V("C07/first-response-not-delivered", "%s %r" % (kind0, val0)))
@@ -273,6 +291,13 @@ def _case(draw):
     # the request and first response are delivered undisturbed: the case is about notifications
     fates = [["deliver", 0.001], ["deliver", 0.001]] + fates
     case = {"mode": mode, "first": {"observe": first_obs}, "notifications": notifs, "fates": fates, "rng": draw(st.integers(0, 99))}
+    if first_obs is not None and draw(st.integers(0, 3)) == 0:
+        # block-wise first response: the block-wise layer starts listening to the observation only after fetching it
+        case["first"]["blocks"] = draw(st.integers(2, 4))
+        case["first"]["block_delay"] = draw(st.sampled_from([0.0, 0.3, 0.7]))
+        # the fate list is consumed by whatever is transmitted next, so a drop could hit the block fetch; losing
+        # that is C05's subject, here it would only make the first response fail legitimately
+        case["fates"] = [f for f in case["fates"] if f[0] != "drop"]
     if mode.endswith("aiter"):
         case["consumer_delay"] = draw(st.sampled_from([0, 0, 0.3, 1.5]))
     return case
